@@ -22,14 +22,15 @@ import gen_lock
 import regen_lock
 import lock_stress
 
-RULE = ("cases = (2..8 thread programs of nested API calls / callbacks of the 5 macro kinds, schedule) from "
+RULE = ("cases = (2..8 thread programs of nested API calls - the driver's transcribed wrapper or the real coap_handle_event() - / callbacks of the 5 macro kinds, schedule) from "
         "the corpus, a seeded generator (uniform / bursty / round-robin / one-thread-first / short schedules) "
-        "and the interleavings of pairs from a catalogue of 9 small programs (all of them up to 40 (quick) / 3000 (thorough) per pair, else half lexicographic half random); each is run on the "
+        "and the interleavings of pairs from a catalogue of 10 small programs (all of them up to 40 (quick) / 3000 (thorough) per pair, else half lexicographic half random); each is run on the "
         "real lock code and on the extracted model and compared step by step; non-trivial = at least 2 "
         "threads, at least one callback macro in a program, and the implementation's trace contains a "
         "blocked lock attempt or a state with in_callback >= 1; distinct = distinct case line")
 
-WRAPS = ["pthread_mutex_lock", "pthread_mutex_unlock", "pthread_mutex_trylock", "pthread_self"]
+WRAPS_RC = ["pthread_mutex_lock", "pthread_mutex_unlock", "pthread_mutex_trylock", "pthread_self"]
+WRAPS = WRAPS_RC + ["coap_lock_lock_func", "coap_lock_unlock_func"]
 GEN_REL = os.path.join("Gen", "LockConfig.v")
 
 
@@ -71,7 +72,7 @@ def trace_nontrivial(line, out):
     toks = line.split()
     n = int(toks[1])
     progs = toks[2:2 + n]
-    if n < 2 or not any(c in p for p in progs for c in "kKrRi"):
+    if n < 2 or not any(c in p for p in progs for c in "kKrRiE"):
         return False
     if "b1." in out or "b0." in out:
         return True
@@ -175,9 +176,9 @@ def main(run):
     run.cov["driver_crashes"] = len(crashes)
     # the COAP_THREAD_RECURSIVE_CHECK variant of the lock functions and macros (the autoconf default),
     # compiled into a second driver: same cases, same model
-    drv_rc = vlib.build_driver("h_lock_rc", ["h_lock.c"], "base", wraps=WRAPS,
+    drv_rc = vlib.build_driver("h_lock_rc", ["h_lock.c"], "base", wraps=WRAPS_RC,
                                extra=["-DCOAP_THREAD_RECURSIVE_CHECK=1", "-DLK_STANDALONE_RC"])
-    orc, crashes_rc = vlib.run_lines_robust(drv_rc, lines, timeout=600)
+    orc, crashes_rc = vlib.run_lines_robust(drv_rc, [gen_lock.expand_real_calls(ln) for ln in lines], timeout=600)
     run.cov["driver_crashes_rc"] = len(crashes_rc)
     nbad_rc = 0
     for i, ln in enumerate(lines):
@@ -204,6 +205,7 @@ def main(run):
         em = re.search(r" end=(\d) done=(\d+)$", co)
         run.hist("impl_verdict", em.group(1) if em else "crash")
         run.hist("blocked_attempts", "yes" if re.search(r"\db\d", co) else "no")
+        run.hist("real_api_call", "yes" if "E(" in ln else "no")
         for mm in re.finditer(r"[+b]\d+\.\d+\.(-?\d+)\.", co):
             maxincb = max(maxincb, int(mm.group(1)))
         if i % 900 == 3:
